@@ -409,7 +409,8 @@ func (k *forgeCase) remac(key []byte, beta, beta2 uint16) {
 	}
 }
 
-func (k *forgeCase) serialize() ([]byte, error) {
+// scionLayer builds the SCION header of k.
+func (k *forgeCase) scionLayer() (*slayers.SCION, error) {
 	var sl [3]uint8
 	for i, l := range k.lens {
 		sl[i] = uint8(l)
@@ -421,6 +422,14 @@ func (k *forgeCase) serialize() ([]byte, error) {
 		return nil, err
 	}
 	if err := sc.SetDstAddr(k.opts.dstHost); err != nil {
+		return nil, err
+	}
+	return sc, nil
+}
+
+func (k *forgeCase) serialize() ([]byte, error) {
+	sc, err := k.scionLayer()
+	if err != nil {
 		return nil, err
 	}
 	ls := []gopacket.SerializableLayer{sc}
@@ -574,3 +583,20 @@ func bubble(t *testing.T, f func()) {
 		panic(pv)
 	}
 }
+
+// hopOffsetFor / infoOffsetFor: byte offsets computed from the header layout for the case's actual
+// host address lengths.
+func (k *forgeCase) addrLen() int {
+	n := 0
+	for _, h := range []addr.Host{k.opts.dstHost, k.opts.srcHost} {
+		if h.Type() == addr.HostTypeIP && h.IP().Is6() {
+			n += 16
+		} else {
+			n += 4
+		}
+	}
+	return n
+}
+
+func (k *forgeCase) hopOffsetFor(h int) int  { return 12 + 16 + k.addrLen() + 4 + 8*len(k.lens) + 12*h }
+func (k *forgeCase) infoOffsetFor(s int) int { return 12 + 16 + k.addrLen() + 4 + 8*s }
